@@ -886,3 +886,14 @@ def inline_closure(fw, fnnode, name, param_decl):
         fw.replace(stmt["span"][0], stmt["span"][1], "", "W8-inline-closure", what="call of closure " + name)
         fw.copy(c["body_span"][0], c["body_span"][1], stmt["span"][0], pre="{ let %s = %s;\n" % (param_decl, arg), suf="\n}", rule="W8-inline-closure")
     return c
+
+
+def strip_prefix_or_self(fw, letnode):
+    """R-std: `let N = X.strip_prefix(LIT).unwrap_or(&X);` -> `let N = v_strip_prefix_or_self(&X, LIT);` (trusted
+    wrapper whose body is the original expression; its spec is std's: the text after LIT if X starts with LIT, else X)"""
+    import re
+    t = " ".join(fw.text(letnode["init_span"]).split())
+    m = re.match(r'^([A-Za-z_][A-Za-z_0-9]*)\s*\.strip_prefix\((\"(?:[^\"\\]|\\.)*\")\)\s*\.unwrap_or\(&\s*([A-Za-z_][A-Za-z_0-9]*)\)$', t)
+    if not m or m.group(1) != m.group(3):
+        raise WeaveError("%s:%d R-std strip_prefix: initialiser is not `X.strip_prefix(LIT).unwrap_or(&X)`" % (fw.rel, fw.line_of(letnode["span"][0])))
+    fw.replace(letnode["init_span"][0], letnode["init_span"][1], "crate::verif_prelude::v_strip_prefix_or_self(&%s, %s)" % (m.group(1), m.group(2)), "W9-R-std-strip-prefix")
